@@ -474,9 +474,8 @@ def rule_cut_goto(s, cuts):
         for i in range(bs, be):
             if toks[i][0] == 'goto' and toks[i + 1][0] in cuts[name] and toks[i + 2][0] == ';':
                 edits.append((toks[i][1], toks[i + 2][2])); n += 1
-    want = sum(len(v) for v in cuts.values())
-    if n < want:
-        raise ExtractionError('cut_goto: %d sites found, expected at least %d' % (n, want))
+    # a listed jump that is no longer in the function needs no cut (the change removed the retry); any other
+    # backward jump left in the code shows up as non-terminating unwinding, i.e. a timeout (undecided), never as a pass
     out = []; pos = 0
     for a, b in sorted(edits):
         out.append(s[pos:a]); out.append('__verif_cut_backjump();'); pos = b
